@@ -138,6 +138,12 @@ def run(ctx):
                         u0 = [(float(z.real), float(z.imag), 0.0, 0.0) for z in x0]
                         lo_c = complex(lo)
                         nterms.append(f'({n}%nat, {dmat(fl(An))}, {dyad_lit(1e-12)}, {dyad_lit(1e-10)}, {mi}%nat, {qrow(u0)}, {qrow(fl(qv.reshape(1, n))[0])}, {dq_lit((lo_c.real, lo_c.imag, 0.0, 0.0))}, {len(rs)}%nat)')
+    _A = qx.to_np(herm_with_spectrum(rng, [Fraction(2), Fraction(1), Fraction(-1, 2)]))
+    cm.layout_sweep(ctx, qx, 'C19', 'power_iteration', lambda X: call_pi(X, 0, 6, 1e-10)[:2], _A, {'n': 3})
+    _B = qx.to_np(qx.rand_int(rng, 3, 3, -3, 3))
+    def _nh(X):
+        with contextlib.redirect_stdout(io.StringIO()): return utils.power_iteration_nonhermitian(X, max_iterations=4, seed=0)[:2]
+    cm.layout_sweep(ctx, qx, 'C19', 'power_iteration_nonhermitian', _nh, _B, {'n': 3})
     for name, terms, fn, shard in (('pi', pterms, 'check_pi', 25), ('nh', nterms, 'check_nh', 8)):
         res = cm.run_cases(ctx, 'cases_' + name, HEADER, terms, fn, shard=shard, timeout=900)
         if res is not None:
